@@ -13,38 +13,6 @@ open WS.Spec.AppTrace (cbOnly expectedConn expectedDeliveries reportTrace)
     and calls on_data before on_message. -/
 theorem read_shape : Gen.appOnDataMsgOpcode = true ∧ Gen.appDataBeforeMessage = true := by decide
 
-theorem cbTrace_mem (c : Cfg) (calls : Cb → Nat) (t : Nat) (cb : Cb) (args : List Arg) (x : Nat × Ev)
-    (h : x ∈ cbTrace c calls t cb args) : (∃ a, x.2 = .cb cb a) ∨ (∃ a, x.2 = .cb .onError a) := by
-  unfold cbTrace at h
-  split at h
-  · simp at h
-  · split at h
-    · simp only [List.mem_cons, List.not_mem_nil, or_false] at h
-      rcases h with rfl | rfl
-      · exact Or.inl ⟨_, rfl⟩
-      · exact Or.inr ⟨_, rfl⟩
-    · simp only [List.mem_cons, List.not_mem_nil, or_false] at h
-      subst h; exact Or.inl ⟨_, rfl⟩
-
-theorem expectedDeliveries_term (has : Cb → Bool) (t0 : Nat) (legal : List TEv) (te : TEv)
-    (hleg : ∀ e ∈ legal, isLegal e.ev = true) (hterm : isTerm te.ev = true) :
-    expectedDeliveries has t0 (legal ++ [te]) = expectedDeliveries has t0 legal := by
-  induction legal generalizing t0 with
-  | nil =>
-    have : Spec.AppTrace.isTerminator te.ev = true := by
-      cases h : te.ev <;> simp_all [isTerm, Spec.AppTrace.isTerminator]
-    simp [expectedDeliveries, this]
-  | cons e l ih =>
-    have hl := hleg e (by simp)
-    simp only [List.cons_append, expectedDeliveries, legal_not_term hl, Bool.false_eq_true, ↓reduceIte]
-    rw [ih _ (fun x hx => hleg x (by simp [hx]))]
-
-/-- callbacks of the state in which the loop is entered = callbacks so far ++ the opening callback -/
-theorem enterLoop_cb (c : Cfg) (s0 : St) (evs : List TEv) (ds : List Dial) :
-    cbOnly (enterLoop c s0 evs ds).trace = cbOnly s0.trace ++ cbTrace c s0.calls s0.now .onOpen [] := by
-  simp only [enterLoop, cbOnly_append, cbOnly_cbTrace]
-  simp [cbOnly]
-
 /-- **C13_trace** — for every legal traffic history `legal` (complete text/binary messages, fragmented
     or not, pings, pongs, with any gaps and bursts), every subset of callbacks set (`c.has`), every plan
     in which callbacks return or raise (`Quiet`), plain and TLS-style transport (`c.ssl`): the callbacks
